@@ -1,7 +1,11 @@
 //! vharness — drives the real mls-rs crates for the correspondence checks of /verif.
 //! One sub-command per property; all randomness from one SplitMix64 seeded by --seed.
+mod c05;
 mod c13;
 mod c20;
+mod hist;
+mod providers;
+mod world;
 mod util;
 
 fn main() {
@@ -13,7 +17,9 @@ fn main() {
     let opts = util::Opts::parse(&args[2..]);
     let rc = match args[1].as_str() {
         "c20" => c20::run(&opts),
+        "hist" => hist::run(&opts),
         "c13" => c13::run(&opts),
+        "c05" => c05::run(&opts),
         other => {
             eprintln!("unknown command {other}");
             2
